@@ -192,3 +192,6 @@ def run(ctx):
     tables.check_enum_tables(engine.AliasCtx(ctx, {"R08.2": "R11.4"}), "R08.2", fns,
                              only=lambda e1, e2: "Primitive" in e1 and "Primitive" in e2)
     c07.check_ordered_equality(engine.AliasCtx(ctx, {"R07.7": "R11.4"}), c07.checker_fns(db))
+    # both conformance checks go through SubtypeChecker::is_subtype and its memo (C07 R07.3): a memo hit for another pair —
+    # e.g. the pair of the opposite variance — would skip the export check after the import check
+    c07.check_memo(engine.AliasCtx(ctx, {"R07.3": "R11.4"}))
